@@ -207,7 +207,11 @@ class FakeTransport(asyncio.Transport):
             self.conn.write_failed_at = idx
             g.log.append(("write_failed", self.conn.cid, idx, round(self._loop.time(), 6)))
             self.conn.write_failed_t = self._loop.time()
-            self._force_close(OSError(32, "Broken pipe (injected)"))
+            exc = g.write_error() if g.write_error else OSError(32, "Broken pipe (injected)")
+            if g.write_error_sync:
+                # the transport reports the failure to the caller of write() only; the read side stays up
+                raise exc
+            self._force_close(exc)
             return
         self.conn.written.append(bytes(data))
         g.log.append(("write", self.conn.cid, bytes(data).hex()))
@@ -329,15 +333,17 @@ class FakeGateway:
         self.refuse_kind = "refuse"
         self.connect_raises = None    # exception type the factory raises synchronously
         self.fail_policy = None
+        self.write_error_sync = False
+        self.write_error = None       # factory for the exception a failing write reports (default: broken pipe)
 
     # the two factories --------------------------------------------------
     async def open_connection(self, host=None, port=None, **kw):
-        return await self._open()
+        return await self._open(limit=kw.get("limit", 2 ** 16))
 
     async def open_serial_connection(self, **kw):
-        return await self._open()
+        return await self._open(limit=kw.get("limit", 2 ** 16))
 
-    async def _open(self):
+    async def _open(self, limit=2 ** 16):
         fut = self.loop.create_future()
         att = Attempt(self.loop.time(), fut)
         self.attempts.append(att)
@@ -356,7 +362,7 @@ class FakeGateway:
             raise HarnessError(f"unknown connect outcome {outcome}")
         conn = Conn(len(self.conns), self.loop.time())
         self.conns.append(conn)
-        reader = CountingStreamReader(limit=2 ** 16, loop=self.loop)
+        reader = CountingStreamReader(limit=limit, loop=self.loop)      # the stream limit the client asked for (asyncio's default is 64 KiB)
         reader.gw = self
         protocol = asyncio.StreamReaderProtocol(reader, loop=self.loop)
         transport = FakeTransport(self, conn, protocol, self.loop)
